@@ -34,6 +34,8 @@ def build(pid, macro, ctx, input_expr, chain, final_t, second_branch=False, grou
     """program comparing macro and reference on the same symbolic input"""
     is_async, is_try, is_spawn = KINDS[macro]
     cmpf = finish(final_t)
+    if "usize" in str(final_t) and "vec" in str(final_t):
+        unwind = max(unwind, 44)    # Vec<usize> equality is a byte-wise memcmp loop: 8 bytes per element
     mac_chain = render_mac(chain)
     ref = render_ref(chain, input_expr)
     ids = all_ids(chain)
